@@ -194,6 +194,81 @@ macro_rules! word_case {
                 if !ok {
                     rep.violation(&format!("{}|positions", sig), || "word_pos / set_word_pos / read_word over a Cursor disagree with the word array".to_string(), kvf);
                 }
+                // seeking must address the word also after a failed read left the byte cursor
+                // inside a word (partial trailing word, or a hard error in the middle of a word)
+                if b > 1 && !words.is_empty() {
+                    for extra in 1..b {
+                        let mut data = c.data[..c.nwords * b].to_vec();
+                        data.extend((0..extra).map(|i| 0xE0 | i as u8));
+                        let mut ad = WordAdapter::<$W, _>::new(std::io::Cursor::new(data));
+                        let mut n_ok = 0;
+                        while guard(|| ad.read_word().map_err(|e| e.to_string())).is_ok() {
+                            n_ok += 1;
+                            if n_ok > words.len() + 2 {
+                                break;
+                            }
+                        }
+                        for i in (0..words.len()).rev() {
+                            let s1 = guard(|| ad.set_word_pos(i as u64).map_err(|e| e.to_string()));
+                            let r1 = guard(|| ad.read_word().map_err(|e| e.to_string()));
+                            let p1 = guard(|| ad.word_pos().map_err(|e| e.to_string()));
+                            rep.eval(1);
+                            if !s1.is_ok() || r1 != Out::Ok(words[i]) || p1 != Out::Ok(i as u64 + 1) {
+                                rep.violation(
+                                    &format!("{}|seek-after-failed-read", sig),
+                                    || format!("after a failed read of a partial trailing word ({} extra bytes), set_word_pos({}) = {}, read_word = {} (word is {:x?}), word_pos = {}", extra, i, s1.show(), r1.show(), words[i], p1.show()),
+                                    kvf,
+                                );
+                                break;
+                            }
+                        }
+                    }
+                    // hard error after a short read in the middle of word 1 (or 0)
+                    let victim = words.len().min(2) - 1;
+                    let mut sched = vec![Fault::Limit(b); victim];
+                    sched.push(Fault::Limit(1.max(b / 2)));
+                    sched.push(Fault::Hard);
+                    let mut ad = WordAdapter::<$W, _>::new(FaultyIo::new(c.data[..c.nwords * b].to_vec(), sched, Fault::Limit(b)));
+                    for _ in 0..=victim {
+                        let _ = guard(|| ad.read_word().map_err(|e| e.to_string()));
+                    }
+                    for i in 0..words.len() {
+                        let s1 = guard(|| ad.set_word_pos(i as u64).map_err(|e| e.to_string()));
+                        let r1 = guard(|| ad.read_word().map_err(|e| e.to_string()));
+                        rep.eval(1);
+                        if !s1.is_ok() || r1 != Out::Ok(words[i]) {
+                            rep.violation(&format!("{}|seek-after-failed-read", sig), || format!("after a hard error in the middle of word {}, set_word_pos({}) = {}, read_word = {} (word is {:x?})", victim, i, s1.show(), r1.show(), words[i]), kvf);
+                            break;
+                        }
+                    }
+                }
+                // far positions on a seekable stream (no data needed to ask for the position)
+                for far in [0u64, 1, (1 << 31) - 1, 1 << 31, (1 << 32) + 5, 1 << 40, (1 << 56) + 3] {
+                    let mut fad = WordAdapter::<$W, _>::new(FaultyIo::new(vec![], vec![], Fault::Limit(b)));
+                    let s1 = guard(|| fad.set_word_pos(far).map_err(|e| e.to_string()));
+                    let p1 = guard(|| fad.word_pos().map_err(|e| e.to_string()));
+                    rep.eval(1);
+                    let byte_pos = fad.into_inner().pos as u128;
+                    if !s1.is_ok() || p1 != Out::Ok(far) || byte_pos != far as u128 * b as u128 {
+                        rep.violation(&format!("{}|far-position", sig), || format!("set_word_pos({}) = {}, then word_pos() = {}, byte position {} (word size {})", far, s1.show(), p1.show(), byte_pos, b), kvf);
+                    }
+                }
+                // a buffering sink: after flush() every byte must have reached the sink itself
+                {
+                    let sink = SharedSink::default();
+                    let mut bad = WordAdapter::<$W, _>::new(std::io::BufWriter::with_capacity(64, sink.clone()));
+                    let mut okw = true;
+                    for w in &words {
+                        okw &= guard(|| bad.write_word(*w).map_err(|e| e.to_string())).is_ok();
+                    }
+                    okw &= guard(|| WordWrite::flush(&mut bad).map_err(|e| e.to_string())).is_ok();
+                    rep.eval(1);
+                    let got = sink.0.borrow().clone();
+                    if okw && got != bytes_from_words(&words) {
+                        rep.violation(&format!("{}|flush-not-forwarded", sig), || format!("after write_word x{} and flush() over a BufWriter the sink holds {} of {} bytes", words.len(), got.len(), words.len() * b), kvf);
+                    }
+                    drop(bad);
+                }
             }
         }
         if c.has_fault(b) {
